@@ -1,4 +1,4 @@
 #!/bin/sh
 # wave.sh "C02 C04 ..." "4 5 6"
 cd /verif
-for c in $1; do (for k in $2; do echo "== $c-$k"; selftest/mutest.sh seeded/$c-$k/patch.diff $c 2>&1 | grep -v "^KNOWN" | tail -8 | cut -c1-330; done > /tmp/lt/b6_$c.log 2>&1) & done; wait; echo finished
+for c in $1; do (for k in $2; do echo "== $c-$k"; selftest/mutest.sh seeded/$c-$k/patch.diff $c 2>&1 | grep -v "^KNOWN" | tail -8 | cut -c1-330; done > /tmp/lt/b6b_$c.log 2>&1) & done; wait; echo finished
